@@ -31,7 +31,7 @@ Mirrors the Go code of /repo **as it is now** (after the `fix:` commits), functi
 | `types/types.go        px.ToKey`                                              | `key`                        |
 | `types/uritype.go      UriValue.Equals / ToKey` (`URL().String()`)            | `veq`, `kb` (`.uri`)         |
 | `types/semvertype.go   SemVer.Equals / ToKey` (`Version.Equals`, `Version.ToString`) | `veq`, `kb` (`.semver`), `ValueEqVer.verEq/verStr` |
-| `types/semverrangetype.go SemVerRange.Equals / ToKey` (`VersionRange.Equals`; the key is `ToString`: the ORIGINAL string) | `veq`, `kb` (`.vrange`), `ValueEqVer.rangesEq/rangeStr` |
+| `types/semverrangetype.go SemVerRange.Equals / ToKey` (`VersionRange.Equals`; the key is `ToNormalizedString`, /repo fix 2f932dc) | `veq`, `kb` (`.vrange`), `ValueEqVer.rangesEq/normStr` |
 | `types/typedname.go    typedName.Equals` (`MapKey() ==`), no `ToKey`           | `veq` (`.tname`), `mkTname`  |
 | `types/deferred.go     deferred.Equals` (name and the arguments as an Array), no `ToKey` | `veq` (`.deferred`)  |
 | `internal/parameter.go parameter.Equals` (name, captures, HasValue, type, Value()), no `ToKey` | `veq` (`.param`) |
@@ -47,8 +47,9 @@ Go runtime faults: `px.ToKey` of a value that contains a `Sensitive` panics with
 answers `none` exactly then (`keyable`).  `Equals`, `Get`, `Unique` reach that panic only through a Hash *key* that
 contains a Sensitive (`hashKeysKeyable`); the driver prints `unkeyable` for such operands (so does the harness).
 
-A SemVerRange is keyed by the string it was parsed from (`versionRange.ToString`), while `Equals` compares the parsed ranges:
-`1.x` and `>=1.0.0 <2.0.0` are Equal and have different keys (mirrored; see the finding C07-semver-range-original-key).
+A SemVerRange is keyed by its normalized form, a function of the parsed ranges `Equals` compares (it was keyed by the string
+it was parsed from: `1.x` and `>=1.0.0 <2.0.0` were Equal with different keys — finding C07-semver-range-original-key,
+repaired in /repo 2f932dc); the original string is still what `String()` prints (`rangeStr`).
 TypedName, Deferred and Parameter values have no `ToKey`: `px.ToKey` reports `INVALID_MAP_KEY` for them (and for every
 container that holds one), exactly as for a Sensitive — but they do have an `Equals`.
 
@@ -352,7 +353,7 @@ def kb : Val → Bytes
   | .timestamp s n => timestampKey s n
   | .uri s => [1, 0x55] ++ s
   | .semver v => [1, 0x76] ++ verStr v
-  | .vrange orig rs => [1, 0x52] ++ rangeStr orig rs
+  | .vrange _ rs => [1, 0x52] ++ normStr rs
   | .tname _ _ _ => []
   | .deferred _ _ => []
   | .param _ _ _ _ _ => []
